@@ -231,7 +231,14 @@ impl Check for C01Check {
     fn run_case(&self, idx: u64, seed: u64, tier: Tier) -> CaseResult {
         let mut res = CaseResult::default();
         let mut r = Rng::new(seed);
-        let (sc, family) = gen_scenario(&mut r, tier);
+        let (mut sc, mut family) = gen_scenario(&mut r, tier);
+        if idx < 2 * workload::GROWTH_COMBOS {
+            // Twice through every (opcode applied to its own result x use of
+            // the grown value) combination, whatever the seed; the rest of the
+            // scenario (knobs, schedule, API shape) stays as generated.
+            sc.code = workload::gen_growth_combo(idx % workload::GROWTH_COMBOS, &mut r);
+            family = "growth_combination";
+        }
         res.probe(&format!("workload_{family}"));
         let out = sim::run(&sc, &RunOpts::default());
         account(&mut res, &sc, &out);
